@@ -1,5 +1,6 @@
 import Revm.Spec.JournalAbs
 import Revm.Proofs.JournalInv
+import Revm.Proofs.JournalRefs
 /-! C06 — reverting to a checkpoint restores exactly the state at that checkpoint.
 
 `Model/Journal.lean` is the code-shaped model of `JournaledState` (every operation, every `JournalEntry`
@@ -9,7 +10,8 @@ touched / not-existing marks, warm/cold status of accounts and slots, with absen
 database says and cold unless tx-level pre-warmed) and what a history is (`Op`, `step`, `run`).
 
 Conditions of the statement, all explicit:
-* `WF`: balances are 256-bit words (a `U256` in the Rust);
+* `WF`: balances are 256-bit words (a `U256` in the Rust); for the total form `JRefs`: the journal refers only to
+  accounts / slots present in the state map (true of a fresh `JournaledState`, preserved by every operation);
 * `DbOk`: the database's `has_storage` answer is faithful (EIP-7610);
 * `admissible`: `set_code` only on an account with empty code, `create_account_checkpoint` only on a target
   not yet marked created, with the faithful `has_storage` answer and a funded caller,
@@ -45,6 +47,25 @@ theorem revert_restores (db : Db) (hasStorage : Addr → Bool) (rpre r0 r : Run)
     (hrun : run db r0 ops = some r)
     (hrev : revert r.js cp = some s') : AbsEq db s' rpre.js :=
   Proofs.Journal.revert_restores_core hdb hwf hadm0 hstep hcp hadm hrun hrev
+
+/-- **Revert restores, and never panics.** The same with the last hypothesis discharged: when the journal of the
+starting state is non-empty and refers only to accounts / slots present in the state map (`JRefs`; true of
+`JournaledState::new`, preserved by every operation), then after ANY admissible history the revert of the
+checkpoint does not hit an `unwrap` on a vacant entry, and it restores the observable state. -/
+theorem revert_restores_total (db : Db) (hasStorage : Addr → Bool) (rpre r0 r : Run) (op : Op) (cp : Checkpoint)
+    (ops : List Op)
+    (hdb : DbOk db hasStorage) (hwf : WF db rpre.js) (hrefs : JRefs rpre.js) (hne : rpre.js.journal ≠ [])
+    (hadm0 : admissible db hasStorage 0 rpre op = true)
+    (hstep : step db rpre op = some r0) (hcp : r0.cps = rpre.cps ++ [cp])
+    (hadm : admissibleRun db hasStorage (rpre.cps.length + 1) r0 ops = true)
+    (hrun : run db r0 ops = some r) :
+    ∃ s', revert r.js cp = some s' ∧ AbsEq db s' rpre.js :=
+  Proofs.Journal.revert_restores_total hdb hwf hrefs hne hadm0 hstep hcp hadm hrun
+
+/-- a fresh `JournaledState` satisfies the journal well-formedness -/
+theorem jrefs_new (spec : Nat) (pre : Addr → Bool) :
+    JRefs (JState.new spec pre) ∧ (JState.new spec pre).journal ≠ [] :=
+  ⟨JRefs.new spec pre, by simp [JState.new]⟩
 
 /-- the same through the history interface: the checkpoint is still at its index after any history,
 and the `revert i` step restores the state -/
@@ -122,6 +143,11 @@ theorem exVisible : (absAcct exDb exR.js 2).balance = 35 ∧ ((absAcct exDb exR.
 example : AbsEq exDb exS' exPre.js :=
   revert_restores exDb exHs exPre exR0 exR .checkpoint (checkpoint exPre.js).2 exOps exS' exDb_ok exWF rfl rfl rfl
     exAdm (Option.some_get exRun).symm (Option.some_get exRev).symm
+
+/-- the total form applies to the same history: the revert is not assumed to succeed -/
+example : ∃ s', revert exR.js (checkpoint exPre.js).2 = some s' ∧ AbsEq exDb s' exPre.js :=
+  revert_restores_total exDb exHs exPre exR0 exR .checkpoint (checkpoint exPre.js).2 exOps exDb_ok exWF
+    (jrefs_new _ _).1 (jrefs_new _ _).2 rfl rfl rfl exAdm (Option.some_get exRun).symm
 
 end example_
 
